@@ -56,7 +56,7 @@ def histories(ck):
             if (not quick) and k == 4 and rng.random() > 0.05:
                 continue
             out.append(base + [("root", 0, None, None)] + list(combo))
-    for _ in range(150 if quick else 3000):
+    for _ in range(150 if quick else 30000):
         n = rng.choice([2, 3, 4])
         h = [("edit", i, (), "class C%d;" % i) for i in range(n)] + [("root", rng.randrange(n), None, None)]
         for _ in range(rng.randrange(4, 11)):
